@@ -1,0 +1,132 @@
+//go:build verif
+
+package autodiff
+
+// Contracts for scalars: representation invariant, model functions, allocation,
+// chain-rule combinators (C01, C08), value getters (C02).
+
+//@ props C01 C08
+
+// ---------------------------------------------------------------------------
+// model functions over the ConstScalar interface (closed world: the scalar types of this package)
+
+//@ spec order(a ConstScalar) int =
+//@   ite(is(*Real64, a), a.(*Real64).Order, ite(is(*Real32, a), a.(*Real32).Order, 0))
+//@ spec nvars(a ConstScalar) int =
+//@   ite(is(*Real64, a), a.(*Real64).N, ite(is(*Real32, a), a.(*Real32).N, 0))
+//@ spec D(a ConstScalar, i int) real =
+//@   ite(is(*Real64, a), ite(a.(*Real64).Order >= 1, a.(*Real64).Derivative[i], 0),
+//@   ite(is(*Real32, a), ite(a.(*Real32).Order >= 1, a.(*Real32).Derivative[i], 0), 0))
+//@ spec H(a ConstScalar, i int, j int) real =
+//@   ite(is(*Real64, a), ite(a.(*Real64).Order >= 2, a.(*Real64).Hessian[i][j], 0),
+//@   ite(is(*Real32, a), ite(a.(*Real32).Order >= 2, a.(*Real32).Hessian[i][j], 0), 0))
+//@ spec val(a ConstScalar) real =
+//@   ite(is(*Real64, a), a.(*Real64).Value, ite(is(*Real32, a), a.(*Real32).Value,
+//@   ite(is(Float64, a), deref(a.(Float64).ptr), ite(is(Float32, a), deref(a.(Float32).ptr),
+//@   ite(is(ConstFloat64, a), a.(ConstFloat64), ite(is(ConstFloat32, a), a.(ConstFloat32),
+//@   uf(valOther, real, a)))))))
+
+//@ for $R,$F in (Real64,float64), (Real32,float32)
+//@ spec RI_$R(a *$R) bool =
+//@   a != nil && a.N >= 0 && a.Order >= 0 &&
+//@   (a.Order >= 1 ==> len(a.Derivative) == a.N) &&
+//@   (a.Order >= 2 ==> len(a.Hessian) == a.N &&
+//@      (forall i int :: 0 <= i && i < a.N ==> len(a.Hessian[i]) == a.N && base(a.Hessian[i]) != base(a.Derivative)) &&
+//@      (forall i int, j int :: 0 <= i && i < j && j < a.N ==> base(a.Hessian[i]) != base(a.Hessian[j])))
+//@ end
+
+// well-formed operand: any scalar; magic ones satisfy their invariant
+//@ spec RIc(a ConstScalar) bool =
+//@   a != nil && (is(*Real64, a) ==> RI_Real64(a.(*Real64))) && (is(*Real32, a) ==> RI_Real32(a.(*Real32)))
+
+// ---------------------------------------------------------------------------
+// interface contracts of the read accessors
+
+//@ func ConstScalar.GetFloat64
+//@   ensures result == val(self)
+//@   pure
+//@ func ConstScalar.GetOrder
+//@   ensures result == order(self)
+//@   pure
+//@ func ConstScalar.GetN
+//@   ensures result == nvars(self)
+//@   pure
+//@ func ConstScalar.GetDerivative
+//@   requires RIc(self) && (order(self) >= 1 ==> 0 <= arg0 && arg0 < nvars(self))
+//@   ensures result == D(self, arg0)
+//@   pure
+//@ func ConstScalar.GetHessian
+//@   requires RIc(self) && (order(self) >= 2 ==> 0 <= arg0 && arg0 < nvars(self) && 0 <= arg1 && arg1 < nvars(self))
+//@   ensures result == H(self, arg0, arg1)
+//@   pure
+
+// ---------------------------------------------------------------------------
+// allocation
+
+//@ for $R,$F in (Real64,float64)
+//@ func (*$R).Alloc
+//@   requires RI_$R(a) && n >= 0 && order >= 0
+//@   ensures RI_$R(a) && a.N == n && a.Order == order && a.Value == old(a.Value)
+//@   ensures @same (old(a.N) == n && old(a.Order) == order) ==> a.Derivative == old(a.Derivative) && a.Hessian == old(a.Hessian)
+//@   ensures @new !(old(a.N) == n && old(a.Order) == order) ==>
+//@      (order >= 1 ==> fresh(a.Derivative) && (forall i int :: 0 <= i && i < n ==> a.Derivative[i] == 0)) &&
+//@      (order >= 2 ==> fresh(a.Hessian) && (forall i int, j int :: 0 <= i && i < n && 0 <= j && j < n ==> fresh(a.Hessian[i]) && a.Hessian[i][j] == 0))
+//@   modifies $R.N@{a}, $R.Order@{a}, $R.Derivative@{a}, $R.Hessian@{a}
+//@   loop 1 invariant 0 <= i && i <= n && a.N == n && a.Order == order && order >= 2 && a.Value == old(a.Value)
+//@   loop 1 invariant fresh(a.Derivative) && len(a.Derivative) == n && fresh(a.Hessian) && len(a.Hessian) == n && off(a.Hessian) == 0 && off(a.Derivative) == 0
+//@   loop 1 invariant forall k int :: 0 <= k && k < n ==> a.Derivative[k] == 0
+//@   loop 1 invariant forall k int :: 0 <= k && k < i ==> fresh(a.Hessian[k]) && len(a.Hessian[k]) == n && off(a.Hessian[k]) == 0 && base(a.Hessian[k]) != base(a.Derivative) && base(a.Hessian[k]) != base(a.Hessian)
+//@   loop 1 invariant forall k int, l int :: 0 <= k && k < l && l < i ==> base(a.Hessian[k]) != base(a.Hessian[l])
+//@   loop 1 invariant forall k int, l int :: 0 <= k && k < i && 0 <= l && l < n ==> a.Hessian[k][l] == 0
+//@   loop 1 invariant forall r *$R :: r != a ==> r.N == old(r.N) && r.Order == old(r.Order) && r.Derivative == old(r.Derivative) && r.Hessian == old(r.Hessian)
+//@   loop 1 invariant forall b int, k int :: b < old(alloc) ==> row($F, b)[k] == old(row($F, b)[k]) && row([]$F, b)[k] == old(row([]$F, b)[k])
+//@   loop 1 decreases n - i
+//@ end
+
+// ---------------------------------------------------------------------------
+// chain rule, one argument (C01: exact derivatives; C08: c may be a)
+
+//@ for $R,$F in (Real64,float64)
+//@ spec owns_$R(c *$R, b int) bool =
+//@   (c.Order >= 1 && b == base(c.Derivative)) || (c.Order >= 2 && (exists i int :: 0 <= i && i < c.N && b == base(c.Hessian[i])))
+//@ spec disjoint_$R(c *$R, a *$R) bool =
+//@   (c.Order >= 1 && a.Order >= 1 ==> base(c.Derivative) != base(a.Derivative)) &&
+//@   (c.Order >= 2 && a.Order >= 2 ==> base(c.Hessian) != base(a.Hessian)) &&
+//@   (c.Order >= 2 && a.Order >= 1 ==> (forall i int :: 0 <= i && i < c.N ==> base(c.Hessian[i]) != base(a.Derivative))) &&
+//@   (c.Order >= 1 && a.Order >= 2 ==> (forall j int :: 0 <= j && j < a.N ==> base(c.Derivative) != base(a.Hessian[j]))) &&
+//@   (c.Order >= 2 && a.Order >= 2 ==> (forall i int, j int :: 0 <= i && i < c.N && 0 <= j && j < a.N ==> base(c.Hessian[i]) != base(a.Hessian[j])))
+//@ spec sep_$R(c *$R, a ConstScalar) bool = is(*$R, a) ==> a.(*$R) == c || disjoint_$R(c, a.(*$R))
+
+//@ spec L1H(a ConstScalar, v1 real, v2 real, i int, j int) real = D(a, i) * D(a, j) * v2 + H(a, i, j) * v1
+//@ spec lift1_post_$R(c *$R, a ConstScalar, v0 real, v1 real, v2 real) bool =
+//@   RI_$R(c) && c.Value == v0 && c.Order == old(order(a)) && c.N == old(nvars(a)) &&
+//@   (c.Order >= 1 ==> (forall i int :: 0 <= i && i < c.N ==> c.Derivative[i] == old(D(a, i)) * v1)) &&
+//@   (c.Order >= 2 ==> (forall i int, j int :: 0 <= i && i <= j && j < c.N ==>
+//@        c.Hessian[i][j] == old(L1H(a, v1, v2, i, j)) && c.Hessian[j][i] == old(L1H(a, v1, v2, i, j))))
+
+//@ func (*$R).monadic [also: (*$R).realMonadic]
+//@   model acmul
+//@   requires RI_$R(c) && RIc(a) && sep_$R(c, a)
+//@   ensures isa(*$R, result) && as(*$R, result) == c
+//@   ensures lift1_post_$R(c, a, v0, v1, v2)
+//@   modifies $R.Value@{c}, $R.N@{c}, $R.Order@{c}, $R.Derivative@{c}, $R.Hessian@{c}, []$F@{b :: owns_$R(c, b)}
+//@   loop 1 invariant 0 <= i && i <= c.N && c.Order >= 2 && RI_$R(c) && c.N == old(nvars(a)) && c.Order == old(order(a)) && order(a) == old(order(a)) && nvars(a) == old(nvars(a))
+//@   loop 1 invariant forall k int :: 0 <= k && k < c.N ==> D(a, k) == old(D(a, k))
+//@   loop 1 invariant forall p int, q int :: 0 <= p && p < i && p <= q && q < c.N ==> c.Hessian[p][q] == old(L1H(a, v1, v2, p, q)) && c.Hessian[q][p] == old(L1H(a, v1, v2, p, q))
+//@   loop 1 invariant forall p int, q int :: i <= p && p <= q && q < c.N ==> H(a, p, q) == old(H(a, p, q))
+//@   loop 1 invariant forall b int, k int :: b < old(alloc) && !old(owns_$R(c, b)) ==> row($F, b)[k] == old(row($F, b)[k])
+//@   loop 1 decreases c.N - i
+//@   loop 2 invariant 0 <= i && i < c.N && i <= j && j <= c.N && c.Order >= 2 && RI_$R(c) && c.N == old(nvars(a)) && c.Order == old(order(a)) && order(a) == old(order(a)) && nvars(a) == old(nvars(a))
+//@   loop 2 invariant forall k int :: 0 <= k && k < c.N ==> D(a, k) == old(D(a, k))
+//@   loop 2 invariant forall p int, q int :: 0 <= p && p < i && p <= q && q < c.N ==> c.Hessian[p][q] == old(L1H(a, v1, v2, p, q)) && c.Hessian[q][p] == old(L1H(a, v1, v2, p, q))
+//@   loop 2 invariant forall q int :: i <= q && q < j ==> c.Hessian[i][q] == old(L1H(a, v1, v2, i, q)) && c.Hessian[q][i] == old(L1H(a, v1, v2, i, q))
+//@   loop 2 invariant forall p int, q int :: i <= p && p <= q && q < c.N && !(p == i && q < j) ==> H(a, p, q) == old(H(a, p, q))
+//@   loop 2 invariant forall b int, k int :: b < old(alloc) && !old(owns_$R(c, b)) ==> row($F, b)[k] == old(row($F, b)[k])
+//@   loop 2 decreases c.N - j
+//@   loop 3 invariant 0 <= i && i <= c.N && c.Order >= 1 && RI_$R(c) && c.N == old(nvars(a)) && c.Order == old(order(a)) && order(a) == old(order(a)) && nvars(a) == old(nvars(a))
+//@   loop 3 invariant forall k int :: i <= k && k < c.N ==> D(a, k) == old(D(a, k))
+//@   loop 3 invariant forall k int :: 0 <= k && k < i ==> c.Derivative[k] == old(D(a, k)) * v1
+//@   loop 3 invariant c.Order >= 2 ==> (forall p int, q int :: 0 <= p && p <= q && q < c.N ==> c.Hessian[p][q] == old(L1H(a, v1, v2, p, q)) && c.Hessian[q][p] == old(L1H(a, v1, v2, p, q)))
+//@   loop 3 invariant forall b int, k int :: b < old(alloc) && !old(owns_$R(c, b)) ==> row($F, b)[k] == old(row($F, b)[k])
+//@   loop 3 decreases c.N - i
+//@ end
